@@ -1955,6 +1955,35 @@ def _coalesce_in_block(block, fnode):
                     n += 1
                     j -= len(drop) - 1
                     continue
+        elif isinstance(st, ast.Assign) and len(st.targets) == 1 and isinstance(st.targets[0], ast.Name) and not isinstance(st.value, ast.Name) \
+                and not _INL.search(st.targets[0].id) and _effect_free(st.value):
+            # y = x; ... (x not mentioned) ...; x = E(y)   with y an expansion's copy used nowhere else:  ...; x = E(x)
+            x = st.targets[0].id
+            ys = sorted({z.id for z in ast.walk(st.value) if isinstance(z, ast.Name) and _INL.search(z.id)})
+            for y in ys:
+                first = next((i for i in range(j) if _mentions(block[i], y)), None)
+                if first is None:
+                    continue
+                head = block[first]
+                if not (isinstance(head, ast.Assign) and len(head.targets) == 1 and isinstance(head.targets[0], ast.Name) and head.targets[0].id == y
+                        and isinstance(head.value, ast.Name) and head.value.id == x):
+                    continue
+                uses_elsewhere = sum(1 for z in ast.walk(fnode) if isinstance(z, ast.Name) and z.id == y) - \
+                    sum(1 for i in range(first, j + 1) for z in ast.walk(block[i]) if isinstance(z, ast.Name) and z.id == y)
+                if uses_elsewhere or any(_mentions(r, x) for r in block[first + 1:j]) or any(isinstance(z, ast.Name) and z.id == x for z in ast.walk(st.value)):
+                    continue
+                for r in block[first + 1:j + 1]:
+                    for z in ast.walk(r):
+                        if isinstance(z, ast.Name) and z.id == y:
+                            z.id = x
+                del block[first]
+                n += 1
+                j -= 1
+                if isinstance(st.value, ast.BinOp) and isinstance(st.value.left, ast.Name) and st.value.left.id == x and \
+                        not any(isinstance(z, ast.Name) and z.id == x for z in ast.walk(st.value.right)):
+                    # x = x + k is spelled x += k again (what the helper's `return ctr + 1` stood for)
+                    block[j] = ast.copy_location(ast.AugAssign(target=ast.Name(id=x, ctx=ast.Store()), op=st.value.op, value=st.value.right), st)
+                break
         j += 1
     return n
 
